@@ -1,12 +1,12 @@
 import Rtcm.Driver
 
-partial def loop (h : IO.FS.Stream) (out : IO.FS.Stream) : IO Unit := do
+partial def loop (checked : Bool) (h : IO.FS.Stream) (out : IO.FS.Stream) : IO Unit := do
   let line ← h.getLine
   if line.isEmpty then return ()
-  out.putStrLn (Rtcm.Driver.handle line)
-  loop h out
+  out.putStrLn (Rtcm.Driver.handle checked line)
+  loop checked h out
 
-def main : IO Unit := do
+def main (args : List String) : IO Unit := do
   let stdin ← IO.getStdin
   let stdout ← IO.getStdout
-  loop stdin stdout
+  loop (args.contains "--checked") stdin stdout
